@@ -174,16 +174,47 @@ def matcher(fid):
     return deco
 
 
+@matcher('F-C02-1')
+def _m_c02_1(d, k):
+    r = d.get('replay') or {}
+    return d['kind'] == 'spec' and d['tie'].startswith('T-run') and 's' in (r.get('opts') or '') and r.get('model_agrees') is True
+
+
+@matcher('F-C07-1')
+def _m_c07_1(d, k):
+    r = d.get('replay') or {}
+    return (d['kind'] == 'spec' and d['tie'].startswith('T-run') and 's' in (r.get('opts') or '') and 'n' in (r.get('opts') or '')
+            and r.get('model_agrees') is True)
+
+
+@matcher('F-C08-3')
+def _m_c08_3(d, k):
+    r = d.get('replay') or {}
+    return d['tie'] == 'go/parser' and 's' in (r.get('opts') or '') and r.get('model_predicts_nil_case') is True
+
+
+@matcher('F-C08-2')
+def _m_c08_2(d, k):
+    r = d.get('replay') or {}
+    err = r.get('error') or ''
+    lines = [l for l in err.splitlines() if l.strip() and not l.startswith('#')]
+    return (d['tie'] == 'go build' and 's' in (r.get('opts') or '') and r.get('model_predicts_unused_label') is True
+            and len(lines) > 0 and all(re.search(r'label l\d+ defined and not used', l) for l in lines))
+
+
 # ---------------------------------------------------------------------------------------------
 # the core group: C01, C03, C04, C05, C06, C07, C11 (+ inline part of C02)
 
 CORE_OPTSETS = ['', 'i', 'n', 'in']
 
 
-def core(ctx, optsets_needed, fields, cross=None, note=''):
+SWITCH_OPTSETS = ['', 'n', 's', 'is', 'sn', 'isn']
+
+
+def core(ctx, optsets_needed, fields, cross=None, note='', sweep='core', build_matters=False):
     """Shared logic: T-emit on the option sets the property depends on, T-run fields it observes."""
     T = ctx.T()
-    sw = S.get_sweep(T, ctx.tier, ctx.seed, CORE_OPTSETS, 'core')
+    sw = S.get_sweep(T, ctx.tier, ctx.seed, SWITCH_OPTSETS if sweep == 'switch' else CORE_OPTSETS, sweep)
     st = sw['stats']
     want = set(optsets_needed)
     for d in sw['emit_diffs']:
@@ -194,16 +225,25 @@ def core(ctx, optsets_needed, fields, cross=None, note=''):
         if d['opts'] in want:
             ctx.add('model', 'T-emit/front', 'real front end/generator failed on a generated well-formed grammar: %s' % json.dumps(d['resp'])[:300],
                     {'grammar': d['text'], 'opts': d['opts'], 'resp': d['resp']})
-    for k, v in sw['vet_bad'].items():
+    nb = sum(1 for v in sw['vet_bad'].values() if v['opts'] in want) + sum(1 for d in sw.get('nilcase', []) if d['opts'] in want)
+    ctx.coverage['emitted_files_that_do_not_compile (decided by C08)'] = ctx.coverage.get('emitted_files_that_do_not_compile (decided by C08)', 0) + nb
+    for k, v in (sw['vet_bad'].items() if build_matters else []):
         if v['opts'] in want:
-            ctx.add('model', 'go build', 'emitted parser does not compile: ' + v['error'][:300], {'grammar': v['text'], 'opts': v['opts'], 'error': v['error']})
+            ctx.add('spec', 'go build', 'emitted parser does not compile: ' + v['error'][:300],
+                    {'grammar': v['text'], 'opts': v['opts'], 'error': v['error'],
+                     'model_predicts_unused_label': bool(sw.get('model_unused_label', {}).get(k))})
+    for d in (sw.get('nilcase', []) if build_matters else []):
+        if d['opts'] in want:
+            ctx.add('spec', 'go/parser', 'emitted file is not Go (empty case list): ' + (d.get('error') or '')[:200],
+                    {'grammar': d['text'], 'opts': d['opts'], 'error': d.get('error'), 'model_predicts_nil_case': True})
     for d in sw['run_diffs']:
         if d['opts'] not in want:
             continue
         fs = [f for f in d.get('fields_spec', []) if f in fields]
         fm = [f for f in d.get('fields_model', []) if f in fields or f == 'error']
         rep = {'grammar': d['text'], 'opts': d['opts'], 'entry': d.get('entry'), 'memo': d.get('memo'), 'input': d.get('input'),
-               'real': d.get('real'), 'model': d.get('model'), 'spec': d.get('spec'), 'case': d['k']}
+               'real': d.get('real'), 'model': d.get('model'), 'spec': d.get('spec'), 'case': d['k'],
+               'model_agrees': not d.get('fields_model')}
         if fs:
             ctx.add('spec', 'T-run/spec', 'real parser disagrees with the PEG semantics on %s for input %r (entry %s, opts "%s")' % (
                 fs, d.get('input'), d.get('entry'), d['opts']), rep)
@@ -213,12 +253,14 @@ def core(ctx, optsets_needed, fields, cross=None, note=''):
         if cross and d['kind'] == cross and d['opts'] in want and [f for f in d['fields'] if f in fields]:
             ctx.add('spec', 'T-run/%s' % cross, 'real parser differs between %s on %s for input %r' % (
                 'memoisation on/off' if cross == 'memo' else 'option sets "%s" and "%s"' % (d['opts'], d.get('base', '')), d['fields'], d['input']),
-                {'grammar': d['text'], 'opts': d['opts'], 'entry': d['entry'], 'input': d['input'], 'a': d['a'], 'b': d['b']})
+                {'grammar': d['text'], 'opts': d['opts'], 'entry': d['entry'], 'input': d['input'], 'a': d['a'], 'b': d['b'],
+                 'model_agrees': d.get('model_agrees', False)})
     by = st.get('by_opts', {})
-    ev = sum(by.get(o or 'd', {}).get('cases', 0) for o in want)
+    ev = sum(by.get(o or 'd', {}).get('cases', 0) for o in want) + ctx.coverage.get('evaluations', 0)
+    prev_dist = ctx.coverage.get('input_distribution')
     ctx.coverage.update({
         'evaluations': ev,
-        'programs_compared_T_emit': sum(1 for _ in range(st.get('programs', 0))),
+        'programs_compared_T_emit': st.get('programs', 0) + ctx.coverage.get('programs_compared_T_emit', 0),
         'rule': 'random well-formed grammars (type-directed generator, seed %d) + exhaustive enumeration of one-rule grammars with <= %d operator nodes over {a,b}; '
                 'inputs: all strings of length <= 3 over {a,b,c} (<= 4 over {a,b} for enumerated grammars), strings sampled from the grammar, their mutations, random strings; '
                 'every rule as entry point; memoisation on and off. ' % (ctx.seed, (S.THOROUGH if ctx.tier == 'thorough' else S.QUICK)['enum_k']) + note,
@@ -226,6 +268,12 @@ def core(ctx, optsets_needed, fields, cross=None, note=''):
         'input_distribution': {'operators': st.get('ops'), 'grammar_kinds': st.get('kinds'), 'by_option_set': {o: by.get(o or 'd') for o in want}},
         'sweep_wall_s': st.get('wall_s'),
     })
+    if prev_dist:
+        ctx.coverage['input_distribution_' + sweep] = ctx.coverage['input_distribution']
+        ctx.coverage['input_distribution'] = prev_dist
+    if sweep == 'switch':
+        ctx.coverage['switch_sweep'] = {'nil_case_outputs': len(sw.get('nilcase', [])), 'slow_generations_skipped': len(sw.get('slow', [])),
+                                        'spec_disagreements_reproduced_by_model': sum(1 for d in sw['run_diffs'] if d.get('fields_spec') and not d.get('fields_model'))}
     return sw, by
 
 
@@ -265,8 +313,9 @@ def c07(ctx):
     ctx.proofs(['PegVerif.Props.C07'])
     sw, by = core(ctx, ['n', 'in'], ['v', 'trace'], cross='opts',
                   note='-noast and -noast -inline parsers; verdict compared with the default parser, trace of inline actions with the spec (reach order, last capture).')
-    ctx.coverage['distinct_nontrivial'] = by.get('n', {}).get('trace_nonempty', 0) + by.get('in', {}).get('trace_nonempty', 0)
-    ctx.assumptions.append('-switch combinations of -noast are covered by C02\'s switch tie once the optimiser model is in place')
+    n1 = by.get('n', {}).get('trace_nonempty', 0) + by.get('in', {}).get('trace_nonempty', 0)
+    sw2, by2 = core(ctx, ['sn', 'isn'], ['v', 'trace'], cross='opts', sweep='switch', note='-noast with -switch / -inline -switch.')
+    ctx.coverage['distinct_nontrivial'] = n1 + by2.get('sn', {}).get('trace_nonempty', 0) + by2.get('isn', {}).get('trace_nonempty', 0)
 
 
 def c11(ctx):
@@ -299,8 +348,10 @@ def errx(ctx):
 def c02(ctx):
     ctx.proofs(['PegVerif.Props.C02'])
     sw, by = core(ctx, ['i'], ['v', 'toks'], cross='opts', note='-inline against the default parser of the same grammar.')
-    ctx.coverage['distinct_nontrivial'] = by.get('i', {}).get('ok', 0)
-    ctx.assumptions.append('-switch tie pending the optimiser model (see DESIGN.md)')
+    n1 = by.get('i', {}).get('ok', 0)
+    sw2, by2 = core(ctx, ['s', 'is'], ['v', 'toks'], cross='opts', sweep='switch',
+                    note='-switch and -inline -switch on switch-shaped grammars (>= 3-way choices with nullable, lookahead-first, range-first, nested alternatives).')
+    ctx.coverage['distinct_nontrivial'] = n1 + by2.get('s', {}).get('ok', 0) + by2.get('is', {}).get('ok', 0)
 
 
 def go_tool(ctx, name):
@@ -397,7 +448,71 @@ def c18(ctx):
     })
 
 
-PROPS = {'C01': c01, 'C16': c16, 'C18': c18, 'C02': c02, 'C03': c03, 'C04': c04, 'C05': c05, 'C06': c06, 'C07': c07, 'C11': c11}
+def c08(ctx):
+    ctx.proofs(['PegVerif.Props.C08'])
+    sw, by = core(ctx, ['', 'i', 'n', 'in'], [], build_matters=True,
+                  note='C08: every emitted file is parsed, type-checked and compiled by `go build`; peg itself runs go/parser + go/printer on its output.')
+    sw2, by2 = core(ctx, ['s', 'is', 'sn', 'isn'], [], sweep='switch', build_matters=True, note='the four -switch option sets.')
+    ctx.coverage['distinct_nontrivial'] = ctx.coverage.get('programs_compared_T_emit', 0)
+    c08_extra(ctx)
+
+
+def c08_extra(ctx):
+    """Grammars outside the random generator: many rules, user imports, header comments, odd literals, comments in code."""
+    T = ctx.T()
+    cases = []
+
+    def add(name, text):
+        cases.append((name, text))
+    hdr = 'package g\n\ntype P Peg {\n Trace string\n STrace string\n}\n\n'
+    for n in ([300, 1200] if ctx.tier == 'quick' else [300, 1200, 3000, 70000]):
+        rules = ['R0 <- ' + ' / '.join('R%d' % i for i in range(1, min(n, 40))) + (' / R%d' % (n - 1) if n > 40 else '')]
+        for i in range(1, n):
+            nxt = ' R%d?' % (i + 1) if i + 1 < n else ''
+            rules.append("R%d <- 'a%s'%s" % (i, chr(98 + i % 20), nxt))
+        add('rules%d' % n, hdr + '\n'.join(rules) + '\n')
+    add('import_plain', 'package g\n\nimport "strings"\n\ntype P Peg {\n Trace string\n STrace string\n}\n\nR0 <- <\'a\'+> { p.Trace += strings.ToUpper(text) }\n')
+    add('import_alias', 'package g\n\nimport str "strings"\n\ntype P Peg {\n Trace string\n STrace string\n}\n\nR0 <- <\'a\'+> { p.Trace += str.ToUpper(text) }\n')
+    add('import_group', 'package g\n\nimport (\n"strings"\n"unicode"\n)\n\ntype P Peg {\n Trace string\n STrace string\n}\n\nR0 <- <.> { if unicode.IsLetter([]rune(text)[0]) { p.Trace += strings.ToUpper(text) } }\n')
+    add('import_dup_runtime', 'package g\n\nimport "fmt"\n\ntype P Peg {\n Trace string\n STrace string\n}\n\nR0 <- <.> { p.Trace += fmt.Sprint(text) }\n')
+    add('header_comments', '# a header comment\n// another one\n\n\npackage g\n\ntype P Peg {\n Trace string\n STrace string\n}\n\nR0 <- \'a\' R1 # trailing\n// between\nR1 <- \'b\'\n')
+    add('odd_literals', hdr + "R0 <- '\\0x00' '\\t' '\\\\' '\\'' \"\\\"\" '\\0x7f' '\\0x80' '\\0xfffd' '\\0x10FFFF' 'é' '汉' [\\]\\[\\-] [\\0x00-\\0x1f] '*/' '/*' '`'\n")
+    add('comment_in_action', hdr + "R0 <- 'a' { /* c */ p.Trace += \"x\" } &{ true /* c */ } 'b' { // line\n p.Trace += \"y\" }\n")
+    add('braces_in_action', hdr + "R0 <- 'a' { if true { p.Trace += \"{}\" } }\n")
+    reqs = []
+    for name, text in cases:
+        for o in L.OPTSETS:
+            if name.startswith('rules') and ('s' in o) and int(name[5:]) > 1200:
+                continue
+            reqs.append({'id': '%s_%s' % (name, o or 'd'), 'text': text, 'opts': o, 'compile': True, 'src': True, 'tree': True, 'name': name})
+    real = T.run_pegx_parallel(reqs, timeout=120)
+    M = L.RunModule()
+    for r, x in zip(reqs, real):
+        if x.get('timeout'):
+            continue
+        if not x.get('compiled'):
+            ctx.add('spec', 'extra/generate', 'generation failed for an accepted grammar (%s, opts "%s"): %s' % (r['name'], r['opts'], (x.get('compileError') or x.get('syntaxError') or x.get('panic') or '')[:200]),
+                    {'grammar': r['text'][:3000], 'opts': r['opts'], 'name': r['name'], 'resp': {k: v for k, v in x.items() if k not in ('tree', 'go', 'ir')}})
+            continue
+        if x.get('warnings'):
+            ctx.add('spec', 'extra/warnings', 'unexpected warning for %s: %s' % (r['name'], x['warnings'][:200]), {'grammar': r['text'][:3000], 'opts': r['opts'], 'name': r['name']})
+        M.add(r['id'], x['go'], 'n' not in r['opts'])
+        # gofmt idempotence
+        g = subprocess.run(['gofmt', '-l'], input=x['go'], capture_output=True, text=True, env=L.GOENV)
+        if g.returncode != 0 or g.stdout.strip():
+            ctx.add('spec', 'extra/gofmt', 'output of %s (opts "%s") is not gofmt-clean: %s' % (r['name'], r['opts'], (g.stdout + g.stderr)[:200]),
+                    {'grammar': r['text'][:3000], 'opts': r['opts'], 'name': r['name']})
+    bad = M.vet()
+    for k, v in bad.items():
+        r = next(q for q in reqs if q['id'] == k)
+        ctx.add('spec', 'extra/go build', 'emitted parser does not compile (%s, opts "%s"): %s' % (r['name'], r['opts'], v[:300]),
+                {'grammar': r['text'][:3000], 'opts': r['opts'], 'name': r['name'], 'error': v[:2000]})
+    ctx.coverage['extra_streams'] = {'cases': [c[0] for c in cases], 'programs': len(reqs), 'failing': len(bad)}
+    ctx.coverage['evaluations'] = ctx.coverage.get('evaluations', 0) + len(reqs)
+    L.cleanup()
+
+
+PROPS = {'C01': c01, 'C08': c08, 'C16': c16, 'C18': c18, 'C02': c02, 'C03': c03, 'C04': c04, 'C05': c05, 'C06': c06, 'C07': c07, 'C11': c11}
 
 
 def replay(ctx, path):
